@@ -403,6 +403,7 @@ impl Exec {
         let Some(m) = self.metrics[ai].as_ref() else { return };
         let pacing = pacing_preset(self.model.arenas[ai].preset);
         let k = m.verif_counters();
+        let debt_now = m.allocation_debt();
         let n = (k.total_gcs + k.freed_gcs) as f64;
         self.cov.c09_credit_checks += 1;
         for (name, v) in [("marked", k.marked_gcs), ("traced", k.traced_gcs), ("kept", k.remembered_gcs), ("destructed", k.dropped_gcs), ("released", k.freed_gcs), ("kept or released", k.remembered_gcs + k.freed_gcs)] {
@@ -420,6 +421,19 @@ impl Exec {
             + k.dropped_gcs as f64 * pacing.drop_factor
             + k.freed_gcs as f64 * pacing.free_factor;
         self.bk[ai].c09.credits = credits;
+        // the debt itself is the documented formula over these counters: allocations past the wake-up
+        // amount plus carried / artificial debt, minus one documented factor per unit of each kind of
+        // work (the completion bound is derived from exactly these per-path sums)
+        let debits = k.allocated_gcs as f64 - k.wakeup_amount + k.artificial_debt;
+        let expect = if k.total_gcs == 0 || debits <= 0.0 { 0.0 } else { (debits - credits).max(0.0) };
+        if (debt_now - expect).abs() > 1e-9 * (1.0 + debits.abs() + credits.abs()) {
+            self.violate(
+                "C09",
+                "debt-formula",
+                format!("{what}: allocation_debt() = {debt_now}, but {} allocations past a wake-up amount of {} with {} carried debt, less the documented credits (marked {} x {}, traced {} x {}, kept {} x {}, destructed {} x {}, released {} x {}) give {expect}", k.allocated_gcs, k.wakeup_amount, k.artificial_debt, k.marked_gcs, pacing.mark_factor, k.traced_gcs, pacing.trace_factor, k.remembered_gcs, pacing.keep_factor, k.dropped_gcs, pacing.drop_factor, k.freed_gcs, pacing.free_factor),
+            );
+            return;
+        }
         let r = rho(&pacing);
         if r < 1.0 && credits > r * n + 1e-6 * (1.0 + n) {
             self.violate(
